@@ -131,11 +131,11 @@ class Engine(ExprMixin, CallMixin, StmtMixin):
         self.refinements[(impl, iface_key)] = (key, list(closure_requires), list(bind.keys()))
         return c
 
-    def enumerator(self, name, props, scope, run, always=False):
+    def enumerator(self, name, props, scope, run, always=False, crosscheck=False):
         """registers a bounded enumerative refuter: `run(seed, focus)` drives the REAL code on small inputs against
         an oracle written from the property statement and returns a replay dict. Never counted as proof."""
         self.enumerators.append({"name": name, "props": list(props), "scope": list(scope), "run": run,
-                                 "always": always})
+                                 "always": always, "crosscheck": crosscheck})
 
     def cls(self, name, **kw):
         d = ClassDecl(name, **kw)
